@@ -20,6 +20,7 @@ import itertools
 import json
 import os
 import queue as _queue
+import re
 import shutil
 import threading
 import time as _time
@@ -36,6 +37,7 @@ TRACE_SPEC = os.path.join(tlc.SPEC_DIR, 'trace', 'Trace_Cleanup.tla')
 # ------------------------------------------------------------------------------------------------
 T0 = 1000000000                       # threshold of every remove_before task: 2001-09-09T01:46:40Z
 T0_ISO = '2001-09-09T01:46:40'
+LATER_ISO = '2001-09-09T03:46:40'      # T0 + 7200: threshold of the cache's own refresh_before rule (option refresh)
 UNIT = 64                             # one lattice unit in map units
 WORLD = 16                            # the grid bbox is [0, 0, 16, 16] lattice units
 RES = [2048, 1024, 512, 256, 128, 64, 32, 16, 8, 4, 2, 1, 0.5]     # levels 0..12, 256 px tiles
@@ -263,6 +265,7 @@ class Site(object):
         self.cache = self.bk.make(self.dir)
         self.tm.cache = self.cache
         self.tm._expire_timestamp = None
+        self.tm._refresh_before = {}
         return self.cache
 
     def present(self, universe):
@@ -344,6 +347,12 @@ def measure(ctx, bk, universe):
         rec['storesTs'] = ts is not None and abs(ts - (T0 - 1000)) < 1
         if not rec['storesTs'] and ts != -1:
             raise tlc.MachineryError('%s: unexpected timestamp %r of a tile stored at %r' % (bk.name, ts, T0 - 1000))
+        # which threshold does the tile manager answer when the cache has a refresh_before rule and a task set its own?
+        site.tm._refresh_before = {'time': LATER_ISO}
+        site.tm._expire_timestamp = T0
+        rec['cacheRuleWins'] = site.tm.expire_timestamp() != T0
+        site.tm._refresh_before = {}
+        site.tm._expire_timestamp = None
         return rec
     finally:
         site.close()
@@ -466,7 +475,10 @@ def run_case(site, case, universe):
         if errors:
             raise tlc.MachineryError('seed configuration of the harness is not valid: %r' % (errors,))
         _VALIDATED.add(ck)
+    if task.get('refresh'):
+        site.tm._refresh_before = {'time': LATER_ISO}          # what the loader does for `refresh_before` of a cache
     ev = {'ev': 'configure', 'levels': sorted(task['levels']), 'mode': task['mode'], 'cov': task['cov'], 'dry': task['dry'],
+          'refresh': bool(task.get('refresh')),
           'res': 'task', 'all': False, 'complete': False, 'tlevels': []}
     events.append(ev)
     try:
@@ -523,7 +535,8 @@ def run_case(site, case, universe):
             try:
                 d = real_ll(level, *a, **kw)
             except Exception:
-                events.append({'ev': 'raises', 'level': level})
+                if info['strategy'] is not None:        # before that, the question is part of the strategy choice
+                    events.append({'ev': 'raises', 'level': level})
                 raise
             state['level'], state['dir'] = level, d
             return d
@@ -643,11 +656,15 @@ def tlc_names(bad):
 def report(ctx, case, info, bad, how, extra=None):
     cause = bad[0][0] if bad else 'diverges-from-model'
     sig = {'backend': case['backend'], 'strategy': info.get('strategy') or 'none', 'cause': cause}
+    if case['task'].get('refresh') and cause == 'newer-tile-removed':
+        # the tile walk asks the cache's refresh_before rule instead of the task's threshold: one defect, every backend
+        sig = {'config': 'cache-refresh_before', 'strategy': sig['strategy'], 'cause': cause}
     if extra:
         sig.update(extra)
     t = case['task']
-    what = '%s: cleanup(levels=%s, %s, coverage=%s%s) on %s -> %s; %s [%s]' % (
+    what = '%s: cleanup(levels=%s, %s, coverage=%s%s%s) on %s -> %s; %s [%s]' % (
         case['backend'], sorted(t['levels']), t['mode'], t['cov'], ', dry_run' if t['dry'] else '',
+        ', cache has refresh_before' if t.get('refresh') else '',
         ['%d/%d/%d:%s' % tuple(s) for s in case['stores']] + case['junk'],
         'raised ' + info['exception'] if info.get('exception') else 'left %s' % sorted(info.get('after') or []),
         '; '.join('%s %s' % (c, d if d is not None else '') for c, d in bad) or 'the run is not a behaviour of Cleanup.tla', how)
@@ -666,14 +683,16 @@ def task_space(universe, covs, with_full=True, with_partial=True):
     for ls in subsets:
         if with_full:
             for mode in ('all', 'before', 'default'):
-                out.append(dict(levels=ls, mode=mode, cov='full', dry=False))
-            out.append(dict(levels=ls, mode='before', cov='full', dry=True))
-            out.append(dict(levels=ls, mode='all', cov='full', dry=True))
+                out.append(dict(levels=ls, mode=mode, cov='full', dry=False, refresh=False))
+            out.append(dict(levels=ls, mode='before', cov='full', dry=True, refresh=False))
+            out.append(dict(levels=ls, mode='all', cov='full', dry=True, refresh=False))
+            out.append(dict(levels=ls, mode='before', cov='full', dry=False, refresh=True))
         if with_partial:
             for cov in sorted(covs):
                 for mode in ('all', 'before', 'default'):
-                    out.append(dict(levels=ls, mode=mode, cov=cov, dry=False))
-            out.append(dict(levels=ls, mode='all', cov=sorted(covs)[0], dry=True))
+                    out.append(dict(levels=ls, mode=mode, cov=cov, dry=False, refresh=False))
+            out.append(dict(levels=ls, mode='all', cov=sorted(covs)[0], dry=True, refresh=False))
+            out.append(dict(levels=ls, mode='before', cov=sorted(covs)[0], dry=False, refresh=True))
     return out
 
 
@@ -684,7 +703,7 @@ def tla_features(rec, universe):
     return tla.to_tla(dict(name=rec['name'], hasLevelLoc=rec['hasLevelLoc'], raises=frozenset(rec['raises']),
                            probe=rec['probe'], probeRaises=rec['probeRaises'],
                            underT=under_t, underJ=under_j, hasBulk=rec['hasBulk'], supportsTs=rec['supportsTs'],
-                           storesTs=rec['storesTs']))
+                           storesTs=rec['storesTs'], cacheRuleWins=rec['cacheRuleWins']))
 
 
 def model_consts(universe, covs, recs, tasks, max_tiles, min_tiles=0, in_order=True, queue_cap=1, junk=JUNK):
@@ -719,7 +738,8 @@ def case_from_behaviour(beh, backend, features):
             junk.append(str(args[0]))
         elif name == 'Configure':
             t = args[0]
-            task = {'levels': sorted(t['levels']), 'mode': str(t['mode']), 'cov': str(t['cov']), 'dry': bool(t['dry'])}
+            task = {'levels': sorted(t['levels']), 'mode': str(t['mode']), 'cov': str(t['cov']), 'dry': bool(t['dry']),
+                    'refresh': bool(t['refresh'])}
             steps.append((name, args, st))
         elif name != 'Terminated':
             steps.append((name, args, st))
@@ -732,8 +752,12 @@ def _present(st):
     return {a for a, c in st['tiles'].items() if str(c) != 'none'}
 
 
-def compare_with_behaviour(steps, events, info, universe):
+def compare_with_behaviour(steps, events, info, universe, case):
     """spec -> code: the real run against the states of one TLC behaviour; None if they agree, else text"""
+    covs = case.get('covs') or universe['covs']
+    # batches handed to the pool may differ in the tiles of the second of T and of touching meta tiles
+    loose = {(x, y, z) for x, y, z, c in case['stores']
+             if c == 'same' or cov_relation((x, y, z), case['task']['cov'], covs) == 'touch'}
     it = iter(steps)
     name, args, st = next(it)
     conf = [e for e in events if e['ev'] == 'configure'][0]
@@ -782,8 +806,8 @@ def compare_with_behaviour(steps, events, info, universe):
                     return 'meta tile %s was handed twice' % (m,)
                 real_h[m] = ts
         for m in set(spec_h) | set(real_h):
-            sh = (spec_h.get(m, set()) & existing) - free
-            rh = (real_h.get(m, set()) & existing) - free
+            sh = (spec_h.get(m, set()) & existing) - loose
+            rh = (real_h.get(m, set()) & existing) - loose
             if sh != rh:
                 return 'meta tile %s: spec hands %s to the pool, real walker %s' % (m, sorted(spec_h.get(m, [])), sorted(real_h.get(m, [])))
     crashed = str(last['pc']) == 'crashed'
@@ -917,9 +941,12 @@ def expected_actions(rec, full):
 
 def model_check(ctx, name, rec, universe, covs, tasks, max_tiles, full, skip=()):
     d = ctx.sub('mc-' + name)
-    consts = model_consts(universe, covs, [rec], tasks, max_tiles, junk=JUNK if ctx.tier == 'thorough' else JUNK[:1])
+    consts = model_consts(universe, covs, [rec], tasks, max_tiles, junk=JUNK[:1])
     mp, cp = tlc.write_mc(d, 'Cleanup', 'MC_Cleanup', consts, invariants=[i for i in INVARIANTS if i not in skip], deadlock=True)
     r = tlc.run(mp, cp, d, workers=4, timeout=3000)
+    if r.error and not r.violated and r.generated == 0:
+        ctx.log('TLC %s ended without a result (rc=%s); running it once more' % (name, r.rc))
+        r = tlc.run(mp, cp, d, workers=4, timeout=3000)
     return name, rec, r, full
 
 
@@ -941,6 +968,8 @@ def reproduce(ctx, r, members, sites, universe, how, feats):
 
 def run(ctx):
     thorough = ctx.tier == 'thorough'
+    if _time.mktime(_time.strptime(T0_ISO, '%Y-%m-%dT%H:%M:%S')) != T0:
+        raise tlc.MachineryError('the check must run with TZ=UTC (thresholds are given as ISO times)')
     tlc.sany(SPEC)
     bks = all_backends()
     byname = {b.name: b for b in bks}
@@ -1041,7 +1070,7 @@ def _drive_real(ctx, thorough, bks, feats, feats_big, classes, class_of_rec, sit
                     continue
                 case['variant'] = bi
                 events, info = run_case(sites[bk.name], case, SMALL)
-                diff = compare_with_behaviour(steps, events, info, SMALL)
+                diff = compare_with_behaviour(steps, events, info, SMALL, case)
                 nrep += 1
                 ctx.cov['replayed_behaviours'] += 1
                 ctx.cov['replayed_steps'] += len(steps)
@@ -1054,7 +1083,7 @@ def _drive_real(ctx, thorough, bks, feats, feats_big, classes, class_of_rec, sit
                 if diff or bad:
                     ndiv += 1
                     report(ctx, case, info, bad, 'TLC behaviour executed on the real cache: ' + (diff or 'states agree with the spec'),
-                           None if bad else {'divergence': diff.split(':')[0]})
+                           None if bad else {'divergence': ' '.join(re.findall(r'[A-Za-z_]+', diff)[:4])})
     ctx.log('executed %d TLC behaviours on real caches (%d diverge or violate)' % (nrep, ndiv))
 
     # ---- (T1) code -> spec, systematic: every content of at most one tile x every task
@@ -1101,7 +1130,8 @@ def _drive_real(ctx, thorough, bks, feats, feats_big, classes, class_of_rec, sit
                        for a in rng.sample(BIG['addr'], n)]
             lv = rng.sample(BIG['levels'], rng.randint(1, len(BIG['levels'])))
             task = {'levels': sorted(lv), 'mode': rng.choice(('all', 'before', 'before', 'default')),
-                    'cov': 'full' if rng.random() < 0.4 else rng.choice(sorted(rcovs)), 'dry': rng.random() < 0.08}
+                    'cov': 'full' if rng.random() < 0.4 else rng.choice(sorted(rcovs)), 'dry': rng.random() < 0.08,
+                    'refresh': rng.random() < 0.15}
             case = {'backend': b.name, 'features': f, 'stores': content, 'junk': [j for j in JUNK if rng.random() < 0.7],
                     'task': task, 'variant': rng.randint(0, 5), 'covs': rcovs, 'conc': rng.choice((1, 2, 3)),
                     'procs': i < (20 if thorough else 2), 'universe': 'big'}
@@ -1152,4 +1182,5 @@ def replay(ctx, data):
     print('  strategy=%s exception=%s after=%s junk=%s' % (info.get('strategy'), info.get('exception'), sorted(info.get('after') or []),
                                                         info.get('junk_after')))
     print('  statement:', bad or 'holds')
+    shutil.rmtree(ctx.workdir, ignore_errors=True)
     return 1 if bad else 0
